@@ -41,6 +41,38 @@ Proof.
   inversion Hn as [|x l Hx Hl]; subst. apply Hx. left. congruence.
 Qed.
 
+(* every reachable state of the extended machine projects to a reachable state of Lock: the lock component moves only
+   by Lock.step (an ordinary op, or the AcqBegin that SpinReturn performs) or not at all.  Hence every theorem about
+   `reach fa` states of Lock.v (FIFO hand-over, no barging, cancelled waiters, arrival order, quiescence) is inherited by
+   the machine with the yielding check. *)
+Theorem entry_projects_to_lock fa s : ereach fa s -> reach fa (lock s).
+Proof.
+  intros [ops ->].
+  enough (H : reach fa (lock (final (estep false) (einit fa) ops)) /\
+              forall t, committed (final (estep false) (einit fa) ops) t = false) by apply H.
+  induction ops as [|o r [IH C]] using rev_ind.
+  - split; [exists []; reflexivity | reflexivity].
+  - rewrite final_app. cbn [final fold_left]. set (s := final (estep false) (einit fa) r) in *.
+    destruct o as [o|t|t|t]; cbn [estep].
+    + destruct (spin s (op_tid o)); [split; assumption|].
+      pose proof (reach_step fa (lock s) o IH) as H. destruct (Lock.step (lock s) o) as [l' r']. split; assumption.
+    + destruct (spin s t || negb (is_idle (phase_of (lock s) t))); split; assumption.
+    + destruct (spin s t); [|split; assumption]. split; [exact IH|].
+      intros t'. cbn. unfold upd. destruct (Nat.eqb t' t); [reflexivity | apply C].
+    + destruct (negb (spin s t)); [split; assumption|]. rewrite C.
+      pose proof (reach_step fa (lock s) (AcqBegin t) IH) as H. destruct (Lock.step (lock s) (AcqBegin t)) as [l' r'].
+      split; [exact H|]. intros t'. cbn. unfold upd. destruct (Nat.eqb t' t); [reflexivity | apply C].
+Qed.
+
+(* one inherited clause stated directly on the extended machine: a free lock never has waiters, and the queue is in
+   arrival order - also across acquire() calls whose check yielded and returned *)
+Theorem entry_no_free_lock_with_waiters fa s : ereach fa s ->
+  (owner (lock s) = None -> waiters (lock s) = []) /\ subseq (waiters (lock s)) (enq (lock s)).
+Proof.
+  intros R. apply entry_projects_to_lock in R.
+  split; [now apply (lock_no_free_with_waiters fa) | now apply (lock_queue_in_arrival_order fa)].
+Qed.
+
 (* an acquire() entered in an already effectively cancelled scope touches nothing - whatever the state of the lock,
    also when it is held, has waiters, or is held by the caller - and ends with the cancellation *)
 Theorem entry_cancelled_refused s t : spin s t = false -> phase_of (lock s) t = Idle ->
@@ -85,3 +117,9 @@ Example ex_entry_hyp :
   let s := final (estep false) (einit false) [L (AcqBegin 2); L (Resume 2); EnterCancelled 1] in
   spin s 1 = true /\ owner (lock s) = Some 2 /\ ereach false s.
 Proof. split; [reflexivity|]. split; [reflexivity|]. eexists. reflexivity. Qed.
+
+(* non-vacuity on the F53 history at HEAD: task 1's check yielded and returned, it queues behind task 2 *)
+Example ex_entry_projection_f53 :
+  let s := final (estep false) (einit true) f53_ops in
+  ereach true s /\ owner (lock s) = Some 2 /\ waiters (lock s) = [(1, 0)] /\ enq (lock s) = [(1, 0)].
+Proof. split; [eexists; reflexivity|]. vm_compute. repeat split. Qed.
